@@ -109,7 +109,7 @@ def short_event(ev):
     return json.dumps(keep, sort_keys=True)
 
 
-def run_stories(prop, fxv, rd, kind, n, what):
+def run_stories(prop, fxv, rd, kind, n, what, inv=("ResultsMatch", "AccountingExact")):
     """Directed stories (fxv faultstory / inflightstory): each run records one sequential history of the
     real store, TraceStore.tla judges it (ResultsMatch, AccountingExact).  Returns (violations, traces, states)."""
     import shutil
@@ -130,7 +130,7 @@ def run_stories(prop, fxv, rd, kind, n, what):
         raise v.ToolError("%s: the story could not be produced in any run" % kind)
     viol = []
     states = 0
-    for g in validate(rd, stories, ["ResultsMatch", "AccountingExact"], kind, chunk=1):
+    for g in validate(rd, stories, list(inv), kind, chunk=1):
         r = g["r"]
         states += r.distinct
         if r.violation and r.violation.startswith("invariant"):
@@ -156,4 +156,4 @@ def replay_story(prop, path):
 
 def is_story(path):
     b = os.path.basename(path)
-    return b.startswith("faultstory_") or b.startswith("inflightstory_") or b.startswith("renewstory_") or b.startswith("ackstory_")
+    return b.startswith("faultstory_") or b.startswith("inflightstory_") or b.startswith("renewstory_") or b.startswith("ackstory_") or b.startswith("pinstory_")
